@@ -246,7 +246,7 @@ def run_jobs(jobs: List[Job], nproc: int = NPROC) -> List[Result]:
             _prepare(m, tmpdir)
         # longest-first scheduling (purely a wall-time matter): obligations known to be heavy start first
         heavy = ("STACK-ADJ", "NamedNumber", "TimeDuration", "@latent", "STREAM", "ruleDateInterval", "ruleDateTimeDateTime", "API", "EMBED", "SUBJECT", "FIT", "latent-interval", "COUNT")
-        order = sorted(range(len(jobs)), key=lambda i: (-sum(1 for h in heavy if h in jobs[i].name), i))
+        order = sorted(range(len(jobs)), key=lambda i: (-(10 * sum(1 for h in heavy if h in jobs[i].name) + jobs[i].name.count(",") + 3 * jobs[i].name.count("POD")), i))
         with ThreadPoolExecutor(max_workers=nproc) as ex:
             done = list(ex.map(lambda i: (i, run_job(jobs[i], tmpdir)), order))
         done.sort(key=lambda x: x[0])
